@@ -60,8 +60,8 @@ ASSUMPTIONS = [
     "complex mode: antilinear in argument number 0, linear in every other argument",
     "the events inside compute_form_data are observed by rebinding the name check_integrand_arity in ufl.algorithms.formdata",
 ]
-BUDGET = {"quick": 45, "thorough": 420}
-NCASES = {"quick": 2600, "thorough": 36000}
+BUDGET = {"quick": 40, "thorough": 400}
+NCASES = {"quick": 4000, "thorough": 40000}
 CASE_TIMEOUT = 30.0
 EVAL_COUNTER = "events"
 FLOORS = {
@@ -318,7 +318,25 @@ def localise(rng, I, members, args, cplx, worlds, mode):
 
 
 def judge(ctx, rng, event, I, args, cplx, cell, gdim, itype, info):
-    """Oracle for one accepted integrand.  Returns (verdict, nontrivial)."""
+    """Oracle for one accepted integrand.  Returns (verdict, nontrivial).  An exception inside the oracle is counted
+    (never folded into held/violated); finish() breaks the run when that happens more than a handful of times."""
+    try:
+        return _judge(ctx, rng, event, I, args, cplx, cell, gdim, itype, info)
+    except Exception as ex:
+        if "C14 harness" in str(ex):
+            raise
+        ctx.count("oracle_error")
+        ctx.covered("oracle_errors", type(ex).__name__ + ": " + str(ex)[:80])
+        return "oracle_error", False
+
+
+def finish(ctx):
+    n = ctx.counters.get("oracle_error", 0)
+    if n > max(3, 0.01 * ctx.counters.get("events", 0)):
+        raise RuntimeError(f"C14 harness: {n} exceptions inside the oracle: {sorted(ctx.cover.get('oracle_errors', []))[:5]}")
+
+
+def _judge(ctx, rng, event, I, args, cplx, cell, gdim, itype, info):
     args = tuple(args)
     occurring = arguments_in(I)
     ctx.count("argument_set_checks")
@@ -411,7 +429,7 @@ def build(rng, i):
     itype = rng.choice(["cell", "cell", "cell", "exterior_facet", "interior_facet", "interior_facet"])
     fam = name = None
     if kind == "template":
-        fam, name = W.ALL_TEMPLATES[(i // len(KINDS)) % len(W.ALL_TEMPLATES)] if rng.random() < 0.85 else rng.choice(W.ALL_TEMPLATES)
+        fam, name = W.ALL_TEMPLATES[(i // 2) % len(W.ALL_TEMPLATES)] if rng.random() < 0.85 else rng.choice(W.ALL_TEMPLATES)
         if fam == "res":
             itype = "interior_facet"
         if fam == "cplx" and rng.random() < 0.6:
